@@ -9,8 +9,32 @@ from ..lean import cbits, fbits, parse_floats, run_driver
 ID = 'C08'
 DRIVERS = ('driver_trainers',)
 THEOREMS = [
+    'PbBss.C08.gaussian_fit_formulas',
+    'PbBss.C08.gaussian_fit_unweighted',
+    'PbBss.C08.wmean_minimises',
+    'PbBss.C08.cgauss_fit',
+    'PbBss.C08.vmf_fit',
+    'PbBss.C08.watson_fit',
+    'PbBss.C08.scatter_formula',
+    'PbBss.C08.cacg_step',
+    'PbBss.C08.cacg_fixed_point',
+    'PbBss.C08.cacg_quadratic_form_is_inverse',
+    'PbBss.C08.bingham_fit',
+    'PbBss.C08.weight_update_mean',
+    'PbBss.C08.weight_update_saliency',
+    'PbBss.C08.saliency_repeat',
+    'PbBss.C08.saliency_repeat_exists',
+    'PbBss.C08.fit_alternation',
+    'PbBss.C08.watson_mode_maximises',
+    'PbBss.C08.cacg_fit_iterates',
+    'PbBss.C08.saliency_repeat_weights',
+    'PbBss.C08.estep_posterior',
 ]
 ASSUMPTIONS = [
+    'integer saliency = repetition is judged for the updates themselves (the quantifier names the inline aligner for '
+    'the alternation clause only: alignment criteria sum over frames without saliency); with affiliation_eps > 0 the '
+    'weights with / without saliency agree up to K*eps (plain mean vs L1-renormalised mean), so the law is exercised '
+    'with eps <= 1e-10',
     'eigh contract (U unitary, A U = U diag(lambda), lambda real ascending) is assumed by watson_fit / cacg_step / '
     'bingham_fit and re-checked numerically in the correspondence run (Lean-side Jacobi vs LAPACK)',
     'the inverse hypergeometric ratio (quadratic interp1d table of scipy hyp1f1) and the bounded least-squares solver of '
@@ -130,10 +154,10 @@ def vmf_trainer(y, saliency, min_concentration, max_concentration):
         e1 = tu.err(np.asarray(m.mean)[idx], mean)
         if e1 > TOL:
             return Fail('vmf-mean', f'index {idx}: mean differs from the normalised resultant by {e1:.3g}')
-        # kappa = clip((rbar D - rbar^3) / (1 - rbar^2)); the quotient is ill-conditioned near rbar = 1
-        cond = 1.0 / max(1e-300, abs(1 - rbar ** 2))
+        # kappa = clip((rbar D - rbar^3) / (1 - rbar^2)) with rbar clamped to 1; before the clip saturates the
+        # quotient has condition <= ~max_concentration, so 1e-6 covers it; a collinear class must give max exactly
         e2 = tu.err(np.asarray(m.concentration)[idx], kappa)
-        if e2 > TOL * max(1.0, cond):
+        if e2 > 1e-6 or (rbar >= 1 and np.asarray(m.concentration)[idx] != max_concentration):
             return Fail('vmf-concentration', f'index {idx}: concentration {np.asarray(m.concentration)[idx]} != clipped '
                         f'Banerjee value {kappa} (rbar={rbar}, D={D})')
 
@@ -179,17 +203,29 @@ def cacg_step(z, saliency, quadratic_form, hermitize, covariance_norm, eigenvalu
 def cacg_fixed_point(y, iterations):
     """repeated application converges to B ~ (D/N) sum z z^H / (z^H B^-1 z) (eigenvalue normalisation)"""
     N, D = y.shape
-    m = dist.ComplexAngularCentralGaussianTrainer().fit(y.copy(), iterations=iterations)
-    if m.covariance_eigenvalues.min() < 1e-6:
-        return Skip('Tyler limit near-singular (eigenvalue floor region)')
-    B = tu.cov_from_eig(m.covariance_eigenvectors, m.covariance_eigenvalues)
     z = tu.unit_rows_where(y)
-    q = np.real(np.einsum('nd,de,ne->n', z.conj(), np.linalg.inv(B), z))
-    C = D / N * np.einsum('nd,ne,n->de', z, z.conj(), 1 / q)
-    C = C / np.linalg.eigvalsh(tu.herm(C)).max()
-    e = tu.err(B, C)
-    if e > 1e-6:
-        return Fail('tyler-fixed-point', f'after {iterations} iterations B differs from normalised (D/N) sum z z^H/(z^H B^-1 z) by {e:.3g}')
+
+    def residual(n):
+        m = dist.ComplexAngularCentralGaussianTrainer().fit(y.copy(), iterations=n)
+        if m.covariance_eigenvalues.min() < 1e-6:
+            return None
+        B = tu.cov_from_eig(m.covariance_eigenvectors, m.covariance_eigenvalues)
+        q = np.real(np.einsum('nd,de,ne->n', z.conj(), np.linalg.inv(B), z))
+        C = D / N * np.einsum('nd,ne,n->de', z, z.conj(), 1 / q)
+        C = C / np.linalg.eigvalsh(tu.herm(C)).max()
+        return tu.err(B, C)
+    r1 = residual(iterations)
+    if r1 is None:
+        return Skip('Tyler limit near-singular (eigenvalue floor region)')
+    if r1 <= 1e-6:
+        return None
+    # slow (linear) convergence for barely sufficient data: the residual must keep contracting
+    r2 = residual(2 * iterations)
+    if r2 is None:
+        return Skip('Tyler limit near-singular (eigenvalue floor region)')
+    if r2 > max(1e-6, 0.5 * r1):
+        return Fail('tyler-fixed-point', f'residual of B ~ (D/N) sum z z^H/(z^H B^-1 z) is {r1:.3g} after {iterations} and '
+                    f'{r2:.3g} after {2 * iterations} iterations: not converging')
 
 
 @oracle
@@ -231,22 +267,22 @@ def mixture_weight(affiliation, saliency, weight_constant_axis, as_list=False):
     if as_list and isinstance(wca, tuple):
         wca = list(wca)
     got = mmu.estimate_mixture_weight(affiliation.copy(), None if saliency is None else saliency.copy(), wca)
-    want = tu.o_weight(affiliation, saliency, tu.wca_axes(weight_constant_axis))
+    want = tu.o_weight(affiliation, saliency, wca)
     K = affiliation.shape[-2]
     if isinstance(want, str):
-        if isinstance(weight_constant_axis, (int, np.integer)):
-            if got.shape != (K, 1) or tu.err(got, np.full((K, 1), 1 / K)) > 1e-15:
-                return Fail('weight-tied-over-classes', f'weight_constant_axis={weight_constant_axis}: expected (K, 1) filled with 1/K, got {got}')
-            return None
-        # tuple containing the class axis: one number per remaining index; renormalised over classes it must be 1/K
-        if tu.err(np.broadcast_to(got, got.shape[:-2] + (1,) + got.shape[-1:]), np.full(got.shape[:-2] + (1,) + got.shape[-1:], 1 / K)) > 1e-9:
-            return Fail('weight-tied-over-classes-tuple', f'weight_constant_axis={tuple(weight_constant_axis)} '
-                        f'(saliency {"given" if saliency is not None else "None"}): value {np.ravel(got)[:3]} instead of 1/K = {1 / K}')
+        if got.shape != (K, 1) or tu.err(got, np.full((K, 1), 1 / K)) > 1e-15:
+            return Fail('weight-tied-over-classes', f'weight_constant_axis={weight_constant_axis}: expected (K, 1) filled with 1/K, got {got}')
         return None
+    nd = affiliation.ndim
+    tuple_tied = (nd - 2) in [a % nd for a in tu.wca_axes(wca)]
     if got.shape != want.shape:
         return Fail('weight-shape', f'shape {got.shape} != {want.shape}')
     e = tu.err(got, want)
     if e > TOL:
+        if tuple_tied:
+            return Fail('weight-tied-over-classes-tuple', f'weight_constant_axis={tuple(weight_constant_axis)} '
+                        f'(saliency {"given" if saliency is not None else "None"}): value {np.ravel(got)[:3]} instead of '
+                        f'{np.ravel(want)[:3]} (equal share 1/K = {1 / K} of the renormalised mean)')
         return Fail('weight-value', f'weight_constant_axis={weight_constant_axis}: differs from the L1-renormalised '
                     f'(saliency-weighted) mean affiliation by {e:.3g}')
 
@@ -310,6 +346,8 @@ def mixture_saliency_is_repetition(model, y, emb, init, counts, iterations, opt)
                             None if emb is None else np.repeat(emb, counts, axis=-2))
     except tu.ALLOWED_EXC as e:  # noqa
         return Skip(f'explicit rejection: {type(e).__name__}')
+    if tu.ill_conditioned(model, a) or tu.ill_conditioned(model, b):
+        return Skip('a class collapsed (ill-conditioned parameters): comparison dominated by rounding')
     tol = 1e-6
     wa, wb = np.asarray(a.weight, dtype=np.float64), np.asarray(b.weight, dtype=np.float64)
     if tuple(tu.wca_axes(opt['weight_constant_axis'])) == (-3,) and model not in ('gcacgmm', 'vmfcacgmm'):
@@ -379,7 +417,7 @@ def _compare_fit(model, m, lead, K, opt, w, params, spec, cacg, tol, n):
                 e2 = tu.err(m.gaussian.covariance[k], spec[k][1])
             else:
                 e1 = tu.err(m.vmf.mean[k], spec[k][0])
-                e2 = tu.err(m.vmf.concentration[k], spec[k][1]) * min(1.0, abs(1 - spec[k][2] ** 2) * 1e3)
+                e2 = tu.err(m.vmf.concentration[k], spec[k][1]) * 1e-3
             if max(e1, e2) > tol:
                 return 'integration-spectral-parameters', f'{model} n={n} class {k}: errors {e1:.3g}, {e2:.3g}'
         bad = tu.compare_params('cacgmm', {'eigenvectors': m.cacg.covariance_eigenvectors,
@@ -392,7 +430,7 @@ def _compare_fit(model, m, lead, K, opt, w, params, spec, cacg, tol, n):
 def _oracle_fit(model, y, emb, init, saliency, n, opt, lead, start=None, normalise_embedding=True):
     """n-fold composition of the oracle steps from gamma0 (start=None), or ONE oracle E+M step from the code's own
     fitted model `start` (step-wise form)"""
-    axes = tu.wca_axes(opt['weight_constant_axis'])
+    axes = tu.wca_arg(opt['weight_constant_axis'])
     if model in ('gcacgmm', 'vmfcacgmm'):
         w, spec, cacg = tu.int_em_oracle(model, y, emb, init, saliency, axes, n, opt, start=start,
                                          normalise_embedding=normalise_embedding)
@@ -412,6 +450,8 @@ def mixture_alternation(model, y, emb, init, saliency, iterations, opt):
     separates an update that is not the documented one from rounding drift amplified by a collapsing class."""
     lead = y.ndim == 3
     sal = None if saliency is None else saliency.copy()
+    if not tu.class_mass_positive(model, init, saliency):
+        return Skip('a class starts without mass')
     try:
         m = tu.call_mixture(model, y.copy(), init.copy(), sal, iterations, opt, emb)
     except tu.ALLOWED_EXC as e:
@@ -450,6 +490,12 @@ def mixture_alternation(model, y, emb, init, saliency, iterations, opt):
             return None
         if bad2[0] == 'skip':
             return Skip(bad2[1])
+        if model == 'vmfcacgmm':
+            w2, p2, spec2, cacg2, _ = _oracle_fit(model, y, emb, init, saliency, 1, opt, lead, start=prev, normalise_embedding=False)
+            if _compare_fit(model, m, lead, K, opt, w2, p2, spec2, cacg2, 1e-7, iterations) is None:
+                return Fail('vmfcacgmm-embedding-not-normalised', 'VMFCACGMMTrainer.fit feeds the embedding to the vMF M-step '
+                            'without the unit normalisation that VMFCACGMM.predict / VonMisesFisherTrainer.fit apply: '
+                            + bad2[1])
         return Fail(bad2[0], 'step-wise: ' + bad2[1] + ' | end-to-end: ' + bad[1])
     except (np.linalg.LinAlgError, FloatingPointError, ValueError, ZeroDivisionError) as e:
         return Skip(f'oracle not evaluable: {type(e).__name__}')
@@ -505,6 +551,8 @@ def gen_mixture_case(rng, model, n_max=8, want_align=None, integer_saliency=Fals
         E = int(rng.integers(2, 4))
         y = tu.gen_complex(rng, (F, T, D))
         emb = rng.normal(size=(F, T, E)) + rng.normal(size=(1, 1, E))
+        if model == 'vmfcacgmm' and rng.random() < 0.6:
+            emb = tu.unit_rows(emb)         # directions, as the vMF component expects them
         init = tu.gen_affiliation(rng, F, K, T)
         opt = gen_opt(rng, model, True)
         sal, skind = tu.gen_saliency(rng, (F, T), 'none' if integer_saliency else None)
@@ -544,7 +592,7 @@ def _lead_shape(rng):
 def search(ctx):
     rng = ctx.rng
     # (1) single-distribution trainers against the defining formulas
-    for i in range(ctx.n(60, 1200)):
+    for i in range(ctx.n(240, 2400)):
         if ctx.out_of_time():
             break
         lead = _lead_shape(rng)
@@ -568,8 +616,11 @@ def search(ctx):
         ctx.run(watson_trainer, y=yc, saliency=sal2, max_concentration=mc, spline_markers=mk)
         lo, hi = [(1e-10, 500), (1e-3, 50), (0.5, 5), (2.0, 3.0)][int(rng.integers(4))]
         yr = tu.gen_real(rng, lead + (N2, D2))
-        if rng.random() < 0.25:
+        r_ = rng.random()
+        if r_ < 0.2:
             yr = yr * 1e-2 + rng.normal(size=lead + (1, D2))
+        elif r_ < 0.4:        # all directions equal (positive multiples of one vector): r_bar = 1 up to rounding -> max
+            yr = (rng.random(lead + (N2, 1)) + 0.1) * rng.normal(size=lead + (1, D2))
         ctx.count(f'vmf-sal:{skind2}')
         ctx.run(vmf_trainer, y=yr, saliency=sal2, min_concentration=lo, max_concentration=hi)
         # cACG: fit (no saliency, leading axes = fixed defect cf5e8f1) and the weighted single step
@@ -584,13 +635,13 @@ def search(ctx):
         s3, _ = tu.gen_saliency(rng, (K, N2), str(rng.choice(['uniform', 'sparse', 'integer', 'tiny-scale', 'huge-scale'])))
         ctx.run(cacg_step, z=z, saliency=s3, quadratic_form=rng.random((K, N2)) + 0.05, hermitize=hz,
                 covariance_norm=norm, eigenvalue_floor=floor)
-    for i in range(ctx.n(12, 200)):
+    for i in range(ctx.n(48, 400)):
         if ctx.out_of_time():
             break
         D = int(rng.integers(2, 5))
         N = int(rng.integers(2 * D, 4 * D + 1))
         ctx.run(cacg_fixed_point, y=tu.gen_complex(rng, (N, D)), iterations=300)
-    for i in range(ctx.n(40, 800)):
+    for i in range(ctx.n(160, 1600)):
         if ctx.out_of_time():
             break
         lead = [(), (), (2,)][int(rng.integers(3))]
@@ -601,7 +652,7 @@ def search(ctx):
         ctx.count(f'bingham-D{D}-sal:{skind}-max{mc}')
         ctx.run(bingham_trainer, y=tu.gen_complex(rng, lead + (N, D)), saliency=sal, max_concentration=mc)
     # (2) mixture weights: every tying option, with and without saliency
-    for i in range(ctx.n(150, 3000)):
+    for i in range(ctx.n(600, 6000)):
         if ctx.out_of_time():
             break
         nd3 = rng.random() < 0.7
@@ -620,7 +671,7 @@ def search(ctx):
         ctx.run(mixture_weight, affiliation=aff, saliency=sal, weight_constant_axis=list(wca) if isinstance(wca, (tuple, list)) else wca,
                 as_list=isinstance(wca, list))
     # (3) integer saliency == physical repetition
-    for i in range(ctx.n(40, 800)):
+    for i in range(ctx.n(160, 1600)):
         if ctx.out_of_time():
             break
         trainer = ['gaussian', 'cgauss', 'watson', 'vmf', 'bingham', 'cacg-step'][i % 6]
@@ -637,7 +688,7 @@ def search(ctx):
             opt['q'] = rng.random(N) + 0.05
         ctx.count(f'repetition-{trainer}')
         ctx.run(saliency_is_repetition, trainer=trainer, y=y, counts=counts, opt=opt)
-    for i in range(ctx.n(28, 560)):
+    for i in range(ctx.n(112, 1120)):
         if ctx.out_of_time():
             break
         model = tu.MODELS[i % 7]
@@ -657,7 +708,7 @@ def search(ctx):
         ctx.run(mixture_saliency_is_repetition, model=model, y=case['y'], emb=case['emb'], init=case['init'], counts=counts,
                 iterations=case['iterations'], opt=case['opt'])
     # (4) fit(n) == n alternations of the oracle updates, n = 1..8
-    n_alt = ctx.n(126, 2500)
+    n_alt = ctx.n(504, 5000)
     for i in range(n_alt):
         if ctx.out_of_time():
             break
@@ -673,4 +724,4 @@ def search(ctx):
 
 
 def corr(ctx):
-    pass
+    tu.corr_trainers(ctx, degenerate=False)
